@@ -30,7 +30,9 @@ def run_one(fn_name, per_condition_timeout=40, wall=90):
     if not os.path.exists(cmd[0]):
         cmd = [sys.executable, "-m", "crosshair", *cmd[1:]]
     env = dict(os.environ)
-    env["PYTHONPATH"] = ROOT + ":/repo" + (":" + env["PYTHONPATH"] if env.get("PYTHONPATH") else "")
+    from . import REPO
+
+    env["PYTHONPATH"] = REPO + ":" + ROOT + (":" + env["PYTHONPATH"] if env.get("PYTHONPATH") else "")
     try:
         p = subprocess.run(cmd, capture_output=True, text=True, timeout=wall, env=env, cwd=ROOT)
         out = p.stdout + p.stderr
